@@ -249,6 +249,10 @@ def run_unit(name, prop, tier, seed):
         for s, x in lst:
             gl = gen_lines[x.line - 1].strip() if x.line and x.line <= len(gen_lines) else ""
             src_file = src_line = None
+            if s is not None and s.kind == "raw" and s.meta.get("file"):
+                # a lemma whose text was generated from an item of /repo names that item
+                src_file = s.meta["file"]
+                src_line = (s.meta.get("lines") or [None])[0]
             if s is not None and s.kind == "fn":
                 src_file = s.meta["file"]
                 a, b = s.meta["lines"]
